@@ -50,7 +50,7 @@ AllFixed == {Fixed(r) : r \in MC_Instants \cup {Absent}}
 
 \* zero-arity definitions: TLC evaluates them once
 D2Q == D2({L2})
-D2T == D2(Small)
+D2T == D2(Base)
 Compose == D1 \cup (IF Which = "quick" THEN D2Q ELSE D2T)
 OrderTrees == {L1, L2, L3, NoneT, [k |-> "and", l |-> L2, r |-> L1]}
 NestedTrees == {[k |-> "reporter", clock |-> c, srcs |-> <<a>>] : c \in AllFixed \cup {Off}, a \in OneSample}
